@@ -673,6 +673,10 @@ namespace Pistache::Http::Experimental
 
     void Connection::handleError(const char* error)
     {
+        // whatever was received of a response that failed must not be taken for
+        // the beginning of the next response on this connection
+        parser.reset();
+
         if (requestEntry)
         {
             if (requestEntry->timer)
